@@ -58,3 +58,6 @@ def run(P, R, tier):
     R.floor("PARTITION.by-class definitions", _proto.check_class_split(P, R), 2)
     for k in SET_LOOP_FUNCS:
         P.func(k)  # anchors
+    from ..engines import hist as _hist
+    _hist.check(P, R)
+
